@@ -393,10 +393,32 @@ def run(F, R, tier):
     # ---- (c) error prefix ------------------------------------------------------------------------------------------------------------
     cb = F.fn("vm::interpreter::VM::call_builtin")
     if R.anchor("VM::call_builtin", cb):
-        txt = H.render(H.body_of(cb))
-        ok = re.search(r"v1::Err\(s\) => let msg = hint::must_use\(fmt::format\(let args = \(&builtin\.name, &s\)", txt) is not None and \
-            "return v1::Err(RTError::new(&msg, line))" in txt
-        R.ob("error-names-builtin", "call_builtin builds the message from builtin.name and the callee's text", ok, txt[txt.find("v1::Err(s)"):][:160], F.loc(cb))
+        from .lib import fmtargs as FA
+        ok, det = False, "no Err arm over the builtin's result"
+        for m in H.walk(H.body_of(cb)):
+            if m.get("k") != "match" or H.is_try(m):
+                continue
+            for a in m["arms"]:
+                if {H.last(v) for v in H.pat_variants(a["pat"])} != {"Err"}:
+                    continue
+                payload = [y["id"] for y in H.walk(a["pat"]) if y.get("k") == "bind"]
+                sites = FA.sites(a["body"])
+                shapes = []
+                for _, parts in sites:
+                    shape = []
+                    for pt in parts:
+                        if pt[0] == "lit":
+                            shape.append(pt[1])
+                        else:
+                            e = H.strip(pt[1])
+                            shape.append("<payload>" if H.local_id(e) in payload else "<%s>" % H.render(e))
+                    shapes.append(shape)
+                rt = [c for c in H.walk(a["body"]) if c.get("k") == "call" and (c.get("callee") or "").endswith("RTError::new")]
+                errs = [c for c in H.walk(a["body"]) if c.get("k") == "call" and H.last(c.get("ctor") or "") == "Err"]
+                det = "message template(s) %s; RTError::new: %d; Err(..): %d" % (shapes, len(rt), len(errs))
+                ok = shapes == [["<builtin.name>", ": ", "<payload>"]] and len(rt) == 1 and len(errs) == 1
+        txt = det
+        R.ob("error-names-builtin", "call_builtin builds the message from builtin.name and the callee's text", ok, txt[:200], F.loc(cb))
     # ---- (e) representation agreement -----------------------------------------------------------------------------------------------------
     def callees(fn):
         g = F.fn(reg.get(fn, ""))
